@@ -1360,11 +1360,13 @@ func (m *Memberlist) readUserMsg(bufConn io.Reader, dec *codec.Decoder) error {
 		if err != nil {
 			return err
 		}
+	}
 
-		d := m.config.Delegate
-		if d != nil {
-			d.NotifyMsg(userBuf)
-		}
+	// Deliver empty messages too: the sender was told the message went
+	// through, and the packet path delivers them as well.
+	d := m.config.Delegate
+	if d != nil {
+		d.NotifyMsg(userBuf)
 	}
 
 	return nil
